@@ -324,8 +324,8 @@ def replay_case(case):
     res = run_case(case)
     if "exc" in res:
         return compare_exact(case, res)
-    v = validate_lines([trace_line(case, res["out"], 1)], procs=1)[0]
-    return judge(v, None, closed_loop=False)
+    line = trace_line(case, res["out"], 1)
+    return judge(validate_lines([line], procs=1)[0], line, closed_loop=False)
 
 
 def judge(v, line, closed_loop):
